@@ -294,18 +294,30 @@ def impl_mismatch(case):
     out = {"compile": {"ok": True, "tree": walk_compiled(c, flags)}, "params": list(c.input_params), "evals": []}
     import random
     rng = random.Random(case["seed"])
-    for _ in range(case["n_assign"]):
-        a = {p: rng.randint(1, 3) for p in c.input_params}
+    def run(steps):
         try:
-            evaluate(c, a)
-            cls = "ok"
+            cur = c
+            for st in steps:
+                cur = evaluate(cur, st).routine
+            return "ok"
         except BartiqCompilationError:
-            cls = "BartiqCompilationError"
+            return "BartiqCompilationError"
         except BaseException as e:  # noqa: BLE001
             if type(e).__name__ == "CaseTimeout":
                 raise
-            cls = type(e).__name__
-        out["evals"].append([a, cls])
+            return type(e).__name__
+
+    for _ in range(case["n_assign"]):
+        a = {p: rng.randint(1, 3) for p in c.input_params}
+        cls = run([a])
+        # the same assignment supplied in two successive evaluate calls (both orders) must have the same outcome
+        keys = list(a)
+        stepwise = []
+        if len(keys) >= 2:
+            k = rng.randint(1, len(keys) - 1)
+            first, second = {x: a[x] for x in keys[:k]}, {x: a[x] for x in keys[k:]}
+            stepwise = [run([first, second]), run([second, first])]
+        out["evals"].append([a, cls, stepwise])
     return out
 
 
@@ -361,7 +373,7 @@ def impl_repro(case):
 
     from bartiq import compile_routine, evaluate
     from bartiq.transform import add_aggregated_resources
-    from hier import to_qref
+    from hier import native_numbers, to_qref
     from qref import SchemaV1
 
     if case.get("warm"):
@@ -375,7 +387,16 @@ def impl_repro(case):
                 compile_routine(to_qref(gen_hierarchy(wr, max_depth=2)))
             except Exception:
                 pass
-    doc = SchemaV1(**to_qref(case["routine"]))
+    if case.get("twin_first"):
+        # the same routine with every integer literal written as an integer-valued float (3 -> 3.0), compiled, evaluated and
+        # aggregated first: numerically equal numbers of another type must not leak into the later compilation
+        try:
+            tw = compile_routine(SchemaV1(**native_numbers(to_qref(case["routine"]), as_float=True)))
+            evaluate(tw.routine, {p: 2.0 for p in tw.routine.input_params})
+            add_aggregated_resources(tw.routine, {"T": {"zz_base": 2.0}})
+        except Exception:
+            pass
+    doc = SchemaV1(**(native_numbers(to_qref(case["routine"])) if case.get("native") else to_qref(case["routine"])))
     before = doc.model_dump_json()
     res1 = compile_routine(doc)
     out = {"mutated_input_doc": doc.model_dump_json() != before}
@@ -575,6 +596,8 @@ def impl_latex(case):
 def impl_parse(case):
     from bartiq import sympy_backend as B
 
+    for t in case.get("prelude", []):
+        B.as_expression(t)        # what was parsed earlier in the process must not matter
     e = B.as_expression(case["text"])
     ex, inex = from_sympy(e)
     return {"expr": ex, "inexact": inex}
